@@ -46,3 +46,19 @@ Proof. reflexivity. Qed.
 
 Example C11_ex_roll : roll_indices 5 2 = [3; 4; 0; 1; 2]%Z.
 Proof. reflexivity. Qed.
+
+(* flip, n-D: for every element type, every well-formed tensor of every rank >= 1 (extents below
+   2^62) and every axes argument, the lowering x[..., ::-1, ...] returns a tensor of the same shape
+   whose element at idx is the input's element with every flipped coordinate i replaced by n-1-i. *)
+From ND Require Import Ndx.FlipProof.
+Theorem C11_flip_nd : forall (A : Type) (t : tensor A) (axes : option (list Z)) (d : A),
+  wf t -> rank t <> 0%nat -> Forall (fun n => (Z.of_nat n < 4611686018427387904)%Z) (shape t) ->
+  let r := rank t in
+  let ax := match axes with None => seq 0 r | Some l => map (fun a => Z.to_nat (if (a <? 0)%Z then Z.of_nat r + a else a)%Z) l end in
+  let flags := map (fun i => existsb (Nat.eqb i) ax) (seq 0 r) in
+  ndx_flip t axes d = GetItem.Done (tab (shape t) (fun idx => get t (flip_idx flags (shape t) idx) d)).
+Proof. exact @ndx_flip_nd. Qed.
+Print Assumptions C11_flip_nd.
+Theorem C11_flip_is_an_involution_on_indices : forall flags sh idx, Tensor.in_bounds sh idx -> length flags = length sh ->
+  flip_idx flags sh (flip_idx flags sh idx) = idx /\ Tensor.in_bounds sh (flip_idx flags sh idx).
+Proof. exact flip_idx_involutive. Qed.
